@@ -180,3 +180,29 @@ pub fn fp_measure(rng: &mut Rng, n: usize, p: f64, probes: usize) -> (usize, usi
     }
     (fp, probes, fneg)
 }
+
+/// false positives on a structured family of hashes: `make(j)` for j in 0..universe; `n` distinct
+/// members (chosen by the PRNG) are added, every other member is probed
+pub fn fp_family(rng: &mut Rng, n: usize, p: f64, universe: u64, make: &dyn Fn(u64) -> u64) -> (usize, usize, usize) {
+    let mut b = VBloom::new(n, p);
+    let mut chosen = std::collections::HashSet::new();
+    while chosen.len() < n {
+        chosen.insert(rng.below(universe));
+    }
+    for j in &chosen {
+        b.add(make(*j));
+    }
+    let fneg = chosen.iter().filter(|j| !b.contains(make(**j))).count();
+    let mut fp = 0;
+    let mut probes = 0;
+    for j in 0..universe {
+        if chosen.contains(&j) {
+            continue;
+        }
+        probes += 1;
+        if b.contains(make(j)) {
+            fp += 1;
+        }
+    }
+    (fp, probes, fneg)
+}
